@@ -88,7 +88,37 @@ def _trads(o):
     return [o] if isinstance(o, HvsrTraditional) else list(o.hvsrs)
 
 
+def default_arguments(o, kind, ctx, root, hist):
+    """Omitting the distributions is the same as passing the documented defaults ('lognormal', 'lognormal'),
+    whatever was done to the object before."""
+    if kind == "diffuse":
+        return
+    d0 = _tmpdir()
+    pa = os.path.join(d0, f"da_{os.getpid()}.csv")
+    pb = os.path.join(d0, f"db_{os.getpid()}.csv")
+    try:
+        write_hvsr_object_to_file(o, pa)
+        write_hvsr_object_to_file(o, pb, distribution_mc="lognormal", distribution_fn="lognormal")
+    except Exception:       # noqa: BLE001 - unwritable states are judged (or skipped) by roundtrip()
+        return
+    ctx.count("transitions", 2)
+    ctx.count("default_argument_comparisons")
+    with open(pa, "rb") as f:
+        a = f.read()
+    with open(pb, "rb") as f:
+        b = f.read()
+    if a != b:
+        la, lb = a.decode(errors="replace").splitlines(), b.decode(errors="replace").splitlines()
+        diff = [i for i, (x, y) in enumerate(zip(la, lb)) if x != y][:3]
+        ctx.violation(f"C12:{kind}:write:omitted-distributions-differ-from-documented-defaults", root,
+                      detail=dict(hist=list(hist), first_differing_lines=diff),
+                      expected=[lb[i][:160] for i in diff], observed=[la[i][:160] for i in diff],
+                      explanation="write_hvsr_object_to_file(obj, f) and the same call with the documented default "
+                                  "distributions passed explicitly produce different files")
+
+
 def roundtrip(o, kind, ctx, root, hist):
+    default_arguments(o, kind, ctx, root, hist)
     d0 = _tmpdir()
     for dmc, dfn in ((a, b) for a in DISTS for b in DISTS):
         p1 = os.path.join(d0, f"w1_{os.getpid()}.csv")
@@ -265,6 +295,12 @@ class TradSystem(c05.System):
         o = HvsrTraditional(self.freq, self.curves, meta=real_meta("trad"))
         return c05.Holder(o)
 
+    def canon(self, h):
+        # what the object remembers about the last rejection is written into the file header: states that
+        # differ in the remembered distributions are different states for a writer
+        a = h.obj.meta.get("window rejection algorithm arguments") or {}
+        return super().canon(h) + ((a.get("distribution_mc"), a.get("distribution_fn")),)
+
     def observe(self, h):
         # "touch": read the statistics (as a user would between steps) but merge states on canon only
         for name, args in ACCESSORS:
@@ -300,6 +336,10 @@ class AziSystem(c11.System):
     def _make(self, csets, az=None):
         hs = [HvsrTraditional(self.freq, c) for c in csets]
         return HvsrAzimuthal(hs, list(az or self.az), meta=real_meta("azi", self.az))
+
+    def canon(self, h):
+        a = h.obj.meta.get("window rejection algorithm arguments") or {}
+        return super().canon(h) + ((a.get("distribution_mc"), a.get("distribution_fn")),)
 
     def observe(self, h):
         # "touch": read the statistics (as a user would between steps) but merge states on canon only
